@@ -17,6 +17,9 @@ ASSUME TablesSane ==
   /\ \A v \in 1..255 : LumR[v] < LumR[v+1] /\ LumG[v] < LumG[v+1] /\ LumB[v] < LumB[v+1]
   \* the linear segment: v <= 10 gives weight * v / 3294.6
   /\ \A v \in 0..10 : Abs(LumB[v+1] - (722 * v * 100000) \div 32946) <= 1
+  /\ Len(ResR) = 256 /\ Len(ResG) = 256 /\ Len(ResB) = 256
+  /\ \A v \in 1..256 : Abs(ResR[v]) <= 500001 /\ Abs(ResG[v]) <= 500001 /\ Abs(ResB[v]) <= 500001
+  /\ ResR[1] = 0 /\ ResR[256] = 0 /\ ResG[256] = 0 /\ ResB[256] = 0
 
 \* relative luminance, error <= 1.5 units (three rounded table entries)
 Lum(c) == LumR[c[1] + 1] + LumG[c[2] + 1] + LumB[c[3] + 1]
@@ -27,11 +30,25 @@ LLo(a, b) == Min(Lum(a), Lum(b))
 
 \* Is contrast(a,b) >= n/d ?   n/d \in {3/1, 9/2, 7/1}: all products < 10^9.
 \* "CLOSE" when the two sides differ by less than the table uncertainty.
+\* When the 1e-8 tables cannot separate the two sides, the comparison is repeated with six more decimals
+\* (units of 10^-14; ResX tables): d*(LHi+F) - n*(LLo+F) = H * 10^6 + L with H the 1e-8 part (|H| <= band there,
+\* so H * 10^6 stays far inside 32 bits) and L the residual part (|L| <= 9 * 1.5e6).  What is still "CLOSE" then
+\* lies within about 4e-12 of the threshold ratio.
+Res(c) == ResR[c[1] + 1] + ResG[c[2] + 1] + ResB[c[3] + 1]
+ResErr == 2
+CmpRatioFine(a, b, n, d) ==
+  LET hiC == IF Lum(a) >= Lum(b) THEN a ELSE b
+      loC == IF Lum(a) >= Lum(b) THEN b ELSE a
+      H == d * (Lum(hiC) + Flare) - n * (Lum(loC) + Flare)
+      L == d * Res(hiC) - n * Res(loC)
+      T == H * 1000000 + L
+      band == ResErr * (n + d)
+  IN IF T >= band THEN "GE" ELSE IF -T > band THEN "LT" ELSE "CLOSE"
 CmpRatio(a, b, n, d) ==
   LET l == d * (LHi(a, b) + Flare)
       r == n * (LLo(a, b) + Flare)
       band == LumErr * (n + d)
-  IN IF l - r >= band THEN "GE" ELSE IF r - l > band THEN "LT" ELSE "CLOSE"
+  IN IF l - r >= band THEN "GE" ELSE IF r - l > band THEN "LT" ELSE CmpRatioFine(a, b, n, d)
 
 \* contrast ratio in millionths, floor; error < 15 millionths
 Ratio6(a, b) == LongDiv(LHi(a, b) + Flare, LLo(a, b) + Flare, 6)
